@@ -590,6 +590,11 @@ func c17ValRun(c *mon.Ctx, i int) {
 			doc := st.Render(v)
 			want := posOf()
 			obs := built.validate(doc)
+			if len(doc)%3 == 1 {
+				// the Document object has a history (checked, measured, or refused by another
+				// schema half-way): the fault is reported at the same byte
+				obs = built.validateChecked(doc)
+			}
 			c.Eval(1)
 			c.Count("validation positions compared: "+class, 1)
 			c.Distinct(sp.Text + "\x00" + doc)
